@@ -138,7 +138,8 @@ class MeasPow(Contract):
 
     def raises(self, c, a):
         if isinstance(a.exponent, VInt):
-            yield "ZeroDivisionError", z3.And(a.exponent.z <= 0, mval(c, meas(c, a.self)) == 0), "zero-to-non-positive-power"
+            # only where the plain quantity operation itself is undefined; x**0 is 1 +- 0 for every x (C14: "including zero")
+            yield "ZeroDivisionError", z3.And(a.exponent.z < 0, mval(c, meas(c, a.self)) == 0), "zero-to-negative-power"
 
     def ensures(self, c, a, r):
         o = c.old
@@ -151,7 +152,7 @@ class MeasPow(Contract):
         n = a.exponent.z
         x, sx = mval(o, meas(o, a.self)), mval(o, unc(o, a.self))
         s = mval(c, unc(c, r))
-        d = z3.ToReal(n) * rpow(x, n - 1) * sx  # df/dx * sigma_x with f = x**n
+        d = z3.If(n == 0, z3.RealVal(0), z3.ToReal(n) * rpow(x, n - 1) * sx)  # df/dx * sigma_x with f = x**n (f' = 0 for n = 0)
         yield "measurand-value", mval(c, meas(c, r)) == rpow(x, n)
         yield "sigma-non-negative", s >= 0
         yield "sigma-first-order", s * s == d * d
